@@ -6,6 +6,10 @@
 //	verif_c10 flex            print kmsg's request flexibility table as a `flex` op line
 //	verif_c10 gen <seed> <n>  print n rounds of `rt` ops: every kmsg request key x version,
 //	                          generated field values, encoded by kmsg's RequestFormatter
+//	verif_c10 conc <seed> <ms>  concurrent scenario: GOMAXPROCS goroutines parse valid generated frames of the
+//	                          SAME api key at versions on both sides of its flexible boundary for <ms> milliseconds;
+//	                          every result is compared with what was encoded (header fields, body bytes, re-encoded
+//	                          decoded request).  Prints `conc ok parses=N` or `conc mismatch <what> rt <k> <v> <corr> <cid> <payload>`
 //	verif_c10                 op loop
 package main
 
@@ -15,8 +19,12 @@ import (
 	"encoding/hex"
 	"fmt"
 	"os"
+	"runtime"
 	"strconv"
 	"strings"
+	"sync"
+	"sync/atomic"
+	"time"
 
 	"github.com/KafScale/platform/pkg/protocol"
 	"github.com/twmb/franz-go/pkg/kmsg"
@@ -198,7 +206,116 @@ func doOp(f []string) (out string) {
 	return "bad-op"
 }
 
+type concFrame struct {
+	key, ver int16
+	corr     int32
+	cid      *string
+	payload  []byte // frame without the 4-byte length
+	body     []byte // what the client encoded as the body
+}
+
+// conc: no parse may be disturbed by other parses running at the same time.
+func conc(seed uint64, ms int) string {
+	rng := &protocol.VerifRng{S: seed}
+	// per supported key: frames at every version (the interesting ones straddle the first flexible version)
+	byKey := map[int16][]concFrame{}
+	var keys []int16
+	for k := int16(0); k <= kmsg.MaxKey; k++ {
+		if !supported[k] {
+			continue
+		}
+		probe := kmsg.RequestForKey(k)
+		keys = append(keys, k)
+		for rep := 0; rep < 3; rep++ {
+			for v := int16(0); v <= probe.MaxVersion(); v++ {
+				req := protocol.VerifFillRequest(k, v, rng)
+				corr := int32(rng.Next())
+				cid := fmt.Sprintf("client-%d", rng.Below(1000))
+				frame := kmsg.NewRequestFormatter(kmsg.FormatterClientID(cid)).AppendRequest(nil, req, corr)
+				byKey[k] = append(byKey[k], concFrame{k, v, corr, &cid, frame[4:], req.AppendTo(nil)})
+			}
+		}
+	}
+	var current atomic.Int64 // index of the key everybody hammers right now
+	var parses atomic.Int64
+	var stop atomic.Bool
+	var mu sync.Mutex
+	first := ""
+	report := func(what string, f concFrame) {
+		mu.Lock()
+		if first == "" {
+			first = fmt.Sprintf("conc mismatch %s rt %d %d %d %s %s", what, f.key, f.ver, f.corr, cidStr(f.cid), hx(f.payload))
+		}
+		mu.Unlock()
+		stop.Store(true)
+	}
+	deadline := time.Now().Add(time.Duration(ms) * time.Millisecond)
+	n := runtime.GOMAXPROCS(0)
+	if n < 2 {
+		n = 2
+	}
+	var wg sync.WaitGroup
+	for g := 0; g < n; g++ {
+		wg.Add(1)
+		go func(g int) {
+			defer wg.Done()
+			defer func() {
+				if r := recover(); r != nil {
+					report(fmt.Sprintf("panic:%v", r), concFrame{})
+				}
+			}()
+			local := &protocol.VerifRng{S: seed + uint64(g)*7919}
+			for i := 0; !stop.Load(); i++ {
+				if i%256 == 0 && time.Now().After(deadline) {
+					return
+				}
+				fs := byKey[keys[int(current.Load())%len(keys)]]
+				f := fs[local.Below(len(fs))]
+				h, body, err := protocol.ParseRequestHeader(f.payload)
+				if err != nil {
+					report("header-error", f)
+					return
+				}
+				if h.APIKey != f.key || h.APIVersion != f.ver || h.CorrelationID != f.corr || cidStr(h.ClientID) != cidStr(f.cid) {
+					report("header-fields", f)
+					return
+				}
+				if !bytes.Equal(body, f.body) {
+					report("body-bytes", f)
+					return
+				}
+				_, req, err := protocol.ParseRequest(f.payload)
+				if err != nil {
+					report("body-decode-failed", f)
+					return
+				}
+				if req.Key() != f.key || req.GetVersion() != f.ver || !bytes.Equal(req.AppendTo(nil), f.body) {
+					report("decoded-request-differs", f)
+					return
+				}
+				parses.Add(1)
+			}
+		}(g)
+	}
+	// move everybody to the next key every 40 ms
+	for !stop.Load() && time.Now().Before(deadline) {
+		time.Sleep(40 * time.Millisecond)
+		current.Add(1)
+	}
+	wg.Wait()
+	if first != "" {
+		return first
+	}
+	return fmt.Sprintf("conc ok parses=%d goroutines=%d", parses.Load(), n)
+}
+
 func main() {
+	if len(os.Args) > 3 && os.Args[1] == "conc" {
+		seed, _ := strconv.ParseUint(os.Args[2], 10, 64)
+		ms, _ := strconv.Atoi(os.Args[3])
+		fmt.Println(conc(seed, ms))
+		return
+	}
 	if len(os.Args) > 1 && os.Args[1] == "flex" {
 		fmt.Println(flexLine())
 		return
